@@ -128,13 +128,15 @@ structure AH where
   handles : Handles := #[]
   deriving Repr, Inhabited
 
+/-- the `if (heap_.size() >= 2) { … }` block of `heapify()`: new array and `max_key` -/
+def aHeapifyArr (lt : Nat → Nat → Bool) (d : Nat) (hd : 0 < d) {n : Nat} (a : Vector Nat n) (mk0 : Nat) :
+    Vector Nat n × Nat :=
+  if h2 : 2 ≤ n then aHeapifyLoop lt d hd h2 a ((n - 2) / d + 1) (Nat.le_refl _) mk0 else (a, mk0)
+
 /-- `heapify()` -/
 def AH.heapify (lt : Nat → Nat → Bool) (d : Nat) (hd : 0 < d) (s : AH) : Option AH :=
   let mk0 := match s.heap[0]? with | some x => x | none => 0   -- heap_.empty() ? 0 : heap_.front()
-  let r : Vector Nat s.heap.size × Nat :=
-    if h2 : 2 ≤ s.heap.size then
-      aHeapifyLoop lt d hd h2 ⟨s.heap, rfl⟩ ((s.heap.size - 2) / d + 1) (Nat.le_refl _) mk0
-    else (⟨s.heap, rfl⟩, mk0)
+  let r : Vector Nat s.heap.size × Nat := aHeapifyArr lt d hd ⟨s.heap, rfl⟩ mk0
   let hs := growH s.handles (r.2 + 1)
   (setHandles r.1.toList 0 hs).map fun hs' => { heap := r.1.toArray, handles := hs' }
 
